@@ -42,6 +42,11 @@ CHECKS.update({
         "note": M1NOTE + " Dense-time reading as stated in spec/UPTimeSem.tla; plans of <= 3 steps.",
         "technique": "recorded validator verdicts judged by the TLA+ temporal semantics (UPTimeSem) evaluated by TLC",
     },
+    "C12": {
+        "text": "NormalForms.tla: IsLiteral / IsNNF / IsDNF and truth-table equivalence over all states of the atoms' fluents, plus a model of dnf.py (as written vs repaired) that TLC checks against the declarative layer. TLC enumerates Boolean expressions (all of depth <= 1 over 8 leaves, all not/binary depth-2 over 4 leaves, a slice of ternary and/or, seeded depth 3; constant-only atoms, equalities, comparisons, implies, iff); Nnf and Dnf are run on each; TLC judges shape and equivalence of both outputs.",
+        "note": TRUST + " Depth-2 ternary and depth-3 expressions are sampled, not exhaustive.",
+        "technique": "TLA+ normal-form predicates and truth-table equivalence evaluated by TLC over TLC-enumerated expressions; recorded conversions judged",
+    },
     "C13": {
         "text": "Subst.tla defines the reference substitution (top-down, maximal occurrences, no re-substitution inside inserted values, binder-aware, rebuilt through Not(Not x)=x) in two independent readings that TLC checks equal on every case (T1), plus the semantic corollary Eval(Subst(e,m)) = Eval(e) under the updated interpretation. TLC enumerates the (expression, map) case space (15k quick / 106k thorough: nested keys, keys under binders, keys inside inserted values, wrong-sort values); each case runs through FNode.substitute, env.substituter and a fresh Substituter; TLC judges syntactic equality with Subst(e,m), rejection of sort-incompatible maps and that a rejected call leaves the expression manager unchanged.",
         "note": TRUST + " Dot/timing/trajectory operators and interpreted functions are not enumerated; numeric types unbounded; acceptance of interval-dependent numeric pairs is not judged.",
@@ -71,6 +76,16 @@ CHECKS.update({
         "text": "Durative problems inside TimedToSequential.supported_kind() are compiled by the real compiler; compiled plans (short sequences and simulator walks) are converted back by the real plan_back_conversion; TimedToSeqJudge.tla: SeqVerdict(compiled problem, plan) = VALID implies the conversion does not raise and UPTimeSem!TimeVerdict(original problem, converted plan) = VALID, with a dedicated clause for a duration outside its (possibly open, possibly fluent-dependent) interval.",
         "note": M1NOTE,
         "technique": "recorded compilation + plan back-conversion judged by the TLA+ sequential and temporal semantics (TLC)",
+    },
+    "C29": {
+        "text": "PlanConvProc.tla states time-triggered plans as bags of timed instances with exact rationals and declarative Forward/Back conversions (k-th end pairs with k-th start); T1: TLC checks the round-trip theorem on every plan of <= L steps over a 9-ground-action problem covering each duration kind (and that it fails outside the zone where the forward plan determines the original). T2/T3: the same plans and seeded plans over generated problems are run through the real plan_forward_conversion / plan_back_conversion; TLC judges Back(Forward(p)) = p as bags and that each compiled end event lies inside its action's duration.",
+        "note": TRUST + " For fixed-duration actions the compiler emits no end event, so the end-event clause is exercised on variable-duration actions inside the stated zone (signatures carry |variable-duration).",
+        "technique": "TLA+ declarative plan conversions checked by TLC + recorded forward/back conversions judged on TLC-enumerated and seeded plans",
+    },
+    "C33": {
+        "text": "T1: TLC checks the lattice laws of ProblemKindLattice (order, lub/glb, hash key, upgrade monotone, tables well-formed) instantiated with the REAL version tables read from problem_kind_versioning. T2/T3: every TLC-enumerated ordered pair of kinds over a 6-feature universe with deprecated and version-2/3 features x versions (thorough: more universes, same-version triples) is run on real ProblemKind objects; each operand's version, features and hash are recorded before and after every query (comparisons are query steps: operands unchanged) and judged by ProblemKindLatticeTrace.",
+        "note": TRUST + " The 7-feature universe is in the thorough tier only.",
+        "technique": "TLA+ lattice laws over the real tables (TLC) + exhaustive enumerated-case replay + trace judging",
     },
     "C31": {
         "text": "Generated finite-state problems with interpreted functions (finite tables) in conditions/effects, or with an oversubscription metric, are solved through interpreted_functions_planning[bfs] / oversubscription[bfs] (bfs = the exact breadth-first planner the property assumes, registered by the harness). TLC judges every returned plan with UPSeqSem!SeqVerdict on the original problem and explores the problem's whole reachable state space: a reported SOLVED_OPTIMALLY must have maximal gain among reachable goal states, and an UNSOLVABLE status / missing plan is only accepted when no reachable goal state exists.",
